@@ -81,7 +81,8 @@ def run(eng, ctx):
               found=f"missing {sorted(want - msm_keys)} extra {sorted(msm_keys - want)}", file=eng.repo.relpath("rtcmtypes_get_msm"), line=0)
     true_keys = set()
     undec = 0
-    universe = list(T.msgids) + ["0", "1069", "1230", "4076_021", "4095"]
+    # every 12-bit message number (decimal) plus every 4076 sub-type identity
+    universe = [str(n) for n in range(4096) if n != fr["igs_msgnum"]] + [f"{fr['igs_msgnum']}_{k:03d}" for k in range(256)] + [str(fr["igs_msgnum"])]
     for key in universe:
         def ov(t, key=key):
             return ("const", key) if t == ("field", "identity") else None
@@ -92,6 +93,8 @@ def run(eng, ctx):
                 true_keys.add(key)
         elif key in T.msgids:
             undec += 1
+        elif not (len(rets2) == 1 and mentions(rets2[0].term, lambda s: s[0] == "idx" and s[1][0] == "gval")):
+            undec += 1  # not a table lookup that fails with KeyError: cannot fold
     if undec:
         ctx.undecided("C15.D5", f.qualname, "predicate value", detail=f"could not fold the predicate for {undec} keys", **eng.loc(f, f.node))
     outside = sorted(k for k in true_keys if not (k.isdigit() and 1070 <= int(k) <= 1229))
@@ -108,6 +111,6 @@ def run(eng, ctx):
     else:
         ctx.ok("C15.D5", f.qualname, "missing key yields False", found="no raising subscript in the predicate", **eng.loc(f, f.node))
     ctx.instance("definitions with first-field check", nd, 152)
-    ctx.instance("message-id universe evaluated", len(universe), 173)
+    ctx.instance("identity universe evaluated (all 12-bit numbers + 4076 sub-types)", len(universe), 4352)
     ctx.instance("identity alternatives", n1, 2)
     ctx.instance("dispatch evaluations", nd3, 152)
